@@ -231,6 +231,13 @@ class MidCircuitWorld(World):
         by_s = {b.outcomes: b for b in tree}
         if len(by_s) != len(tree):
             raise HarnessError("reference outcome strings are not unique")
+        # Outcome strings of probability 0 < p < 1e-13 are pruned from the tree that is judged, but they are *possible*: an
+        # adversarial draw (the "zero" script) may legitimately reach them, and asking for one of them is not asking for a
+        # zero-probability outcome. They are neither demanded nor forbidden.
+        try:
+            self._possible = {b.outcomes for b in R.branches(D.ref_gates(op["gates"]), n, st0, ref_ctrl, max_meas=8, prune=1e-300)}
+        except OverflowError:
+            self._possible = set(by_s)
         has_cm = D.has(op["gates"], "CMEASURE")
         depth = max(len(s) for s in by_s)
         if depth >= 2 and has_cm:
@@ -323,7 +330,7 @@ class MidCircuitWorld(World):
             L = len(tree[0].outcomes)
             for i in range(2 ** L):
                 cand = format(i, f"0{L}b")
-                if cand not in by_s:
+                if cand not in by_s and cand not in self._possible:
                     zero = cand
                     break
         else:
@@ -331,7 +338,7 @@ class MidCircuitWorld(World):
             for br in tree:
                 for i in range(len(br.outcomes)):
                     cand = br.outcomes[:i] + ("1" if br.outcomes[i] == "0" else "0")
-                    if not any(o.startswith(cand) for o in alls):
+                    if not any(o.startswith(cand) for o in alls) and not any(o.startswith(cand) for o in self._possible):
                         zero = cand
                         break
                 if zero:
@@ -451,6 +458,9 @@ class MidCircuitWorld(World):
         for key, v in af.items():
             s, last = key[:len(key) - n], key[len(key) - n:]
             br = by_s.get(s)
+            if br is None and s in self._possible:
+                ctx.probe("C10.negligible_branch_sampled")      # probability below 1e-13 but not zero: not judged
+                continue
             if br is None:
                 V.append(Violation("C10", "impossible-outcome-sampled", site, {"outcome_string": s, "tree": sorted(by_s)[:10], "script": op.get("script"), "op": op}))
                 return V
@@ -516,7 +526,7 @@ class MidCircuitWorld(World):
                 ctx.outcome("desired_shots", "skipped")
                 return V
             L = len(tree[0].outcomes)
-            zero = next((format(i, f"0{L}b") for i in range(2 ** L) if format(i, f"0{L}b") not in by_s), None)
+            zero = next((format(i, f"0{L}b") for i in range(2 ** L) if format(i, f"0{L}b") not in by_s and format(i, f"0{L}b") not in self._possible), None)
             if zero is None:
                 ctx.outcome("desired_shots", "skipped")
                 return V
@@ -564,6 +574,9 @@ class MidCircuitWorld(World):
             for key, v in af.items():
                 so, last = key[:len(key) - n], key[len(key) - n:]
                 bo = by_s.get(so)
+                if bo is None and so in self._possible:
+                    self.ctx.probe("C10.negligible_branch_sampled")
+                    continue
                 if bo is None or R.distribution(bo.state, n, 1e-13).get(last, 0.0) < 1e-12:
                     return [Violation("C10", "impossible-outcome-sampled", site, {"key": key, "op": op})]
                 mid[so] = mid.get(so, 0.0) + v
